@@ -282,11 +282,12 @@ def ident(o):
     return int(h5py.h5o.get_info(o.id).addr)
 
 
-def run_impl(d, k, case):
+def run_impl(d, k, case, given=None):
+    """given = (bins, pixels) input objects to hand over instead of freshly built ones (input reuse, generators)"""
     import cooler
     from cooler import fileops
     fn = os.path.join(d, f"s{k}.scool")
-    bins, px = frames(case)
+    bins, px = given if given is not None else frames(case)
     o_ = case.get("opts") or {}
     out = {}
     if o_.get("pre"):
@@ -531,6 +532,101 @@ def model_expr(case, r):
             f"(fst r, dump_file 6 (snd r) FA, list_scool_cells (snd r) FA, is_scool_file (snd r) FA)")
 
 
+def probe(fn):
+    """the file-level predicates and listings on one path, exceptions as values"""
+    from cooler import fileops
+    out = {}
+    for name, f in (("is_scool_file", fileops.is_scool_file), ("list_scool_cells", fileops.list_scool_cells),
+                    ("is_cooler", fileops.is_cooler), ("is_multires_file", fileops.is_multires_file),
+                    ("list_coolers", fileops.list_coolers)):
+        o, v = G.guarded(f, fn)
+        out[name] = (list(v) if isinstance(v, list) else bool(v)) if o == "Ok" else o
+    return out
+
+
+ABSENT = {"is_scool_file": "EOS", "list_scool_cells": "EOS", "is_cooler": False, "is_multires_file": False, "list_coolers": "EOS"}
+PLAIN = {"is_scool_file": False, "list_scool_cells": "EOS", "is_cooler": True, "is_multires_file": False, "list_coolers": ["/"]}
+
+
+def frames_equal(a, b):
+    ba, pa = a
+    bb, pb = b
+
+    def eq(x, y):
+        if isinstance(x, dict):
+            return isinstance(y, dict) and list(x) == list(y) and all(eq(x[k], y[k]) for k in x)
+        if isinstance(x, list):
+            return isinstance(y, list) and len(x) == len(y) and all(eq(u, v) for u, v in zip(x, y))
+        if isinstance(x, pd.DataFrame):
+            return isinstance(y, pd.DataFrame) and list(x.columns) == list(y.columns) and list(x.dtypes) == list(y.dtypes) and x.equals(y)
+        return np.array_equal(np.asarray(x), np.asarray(y))
+    return eq(ba, bb) and eq(pa, pb)
+
+
+def history_pass(ctx, d, rng):
+    """state carried between calls in ONE process: the same path before it exists, after create_scool, after being
+    overwritten by other cells / another bin table / a plain cooler, after deletion and re-creation; the same input
+    objects reused for two calls; one-shot generators for the chunk iterables.  Every step is judged for what is
+    stored NOW (returned as ordinary cases for the oracle and the model comparison; the predicates right here)."""
+    import copy
+    import cooler
+    steps = []
+    fn = os.path.join(d, "sH.scool")
+
+    def check_probe(tag, exp):
+        got = probe(fn)
+        if got != exp:
+            ctx.fail({"history": tag}, {"what": "file-level predicates/listings on the reused path", "phase": tag, "got": got, "expected": exp}, None)
+
+    def plain_case():
+        while True:
+            c = gen_case(rng)
+            if "opts" not in c:
+                return c
+    A = plain_case()
+    B = plain_case()
+    while len(B["bins"]) == len(A["bins"]) or set(B["order"]) & set(A["order"]):
+        B = plain_case()
+    A2 = copy.deepcopy(A)                 # same bin table (same nbins), other cells
+    A2["order"] = ["n_" + n for n in A["order"]][::-1] + ["extra cell"]
+    A2["cells"] = {"n_" + n: {"pixels": c["pixels"][::2], "extra": copy.deepcopy(c["extra"])} for n, c in A["cells"].items()}
+    A2["cells"]["extra cell"] = {"pixels": [], "extra": copy.deepcopy(next(iter(A["cells"].values()))["extra"])}
+    check_probe("before the file exists", ABSENT)
+    steps.append((A, run_impl(d, "H", A)))
+    steps.append((B, run_impl(d, "H", B)))                       # overwritten: other cells, other number of bins
+    cooler.create_cooler(fn, pd.DataFrame(A["bins"], columns=["chrom", "start", "end"]),
+                         pd.DataFrame({"bin1_id": [0], "bin2_id": [0], "count": [1]}))
+    check_probe("overwritten by a plain cooler", PLAIN)
+    steps.append((A2, run_impl(d, "H", A2)))                     # a single-cell file again, same nbins as A, other cells
+    steps.append((A, run_impl(d, "H", A)))                       # and the first content once more
+    # the same input objects for two consecutive calls (same path, then another path)
+    given = frames(A2)
+    keep = copy.deepcopy(given)
+    steps.append((A2, run_impl(d, "H", A2, given)))
+    steps.append((A2, run_impl(d, "H2", A2, given)))
+    if not frames_equal(given, keep):
+        ctx.fail({"history": "input reuse"}, {"what": "create_scool modified its input objects (bins / cell pixel frames)"}, None)
+    # one-shot generators vs lists for the chunk iterables
+    Gc = copy.deepcopy(A)
+    Gc["opts"] = {"count_dtype": "default", "extra": None, "h5opts": None, "mode": "w", "symm": True, "chunks": 2, "flags": {},
+                  "pre": False, "ensure_sorted": False, "ordered": None, "as_dict": False, "shuffle": False, "perm_seed": 0}
+    bl, pl = frames(Gc)
+    steps.append((Gc, run_impl(d, "H", Gc, (bl, {n: (ch for ch in chunks) for n, chunks in pl.items()}))))
+    steps.append((Gc, run_impl(d, "H", Gc, (bl, pl))))
+    for f_ in (fn, os.path.join(d, "sH2.scool")):
+        try:
+            os.remove(f_)
+        except OSError:
+            pass
+    check_probe("after the file is deleted", ABSENT)
+    steps.append((B, run_impl(d, "H", B)))                       # re-created on the same path after deletion
+    check_probe_scool = probe(fn)
+    if check_probe_scool["is_scool_file"] is not True or check_probe_scool["is_cooler"] is not False:
+        ctx.fail({"history": "re-created"}, {"what": "predicates after re-creation", "got": check_probe_scool}, None)
+    os.remove(fn)
+    return [(c, "history", r) for c, r in steps]
+
+
 def run(ctx):
     import warnings
     warnings.filterwarnings("ignore")
@@ -554,6 +650,8 @@ def run(ctx):
         except OSError:
             pass
     todo = [(case, kind, r) for (case, kind), r in zip(cases, results)]
+    for _ in range(4 if thorough else 2):
+        todo += history_pass(ctx, d, rng)
     exprs = [model_expr(case, r) for case, kind, r in todo if r["outcome"] == "Ok" and "attrs" in r]
     vals = iter(C.coq_eval(IMPORTS, exprs, shard=30, jobs=4, timeout=900, tmpdir=ctx.tmp / "model"))
     for case, kind, r in todo:
